@@ -26,7 +26,7 @@ type c13Spec struct {
 }
 
 var c13Sizes = []int{0, 1, 127, 128, 16383, 16384, 32764, 32765, 32766, 32767, 32768, 32769, 32770, 32771, 65535, 65536, 65537, 1*lib.MB - 1, 1 * lib.MB, 1*lib.MB + 1}
-var c13Patterns = []string{"boundary-mix", "large-then-small", "growing", "all-empty", "many-small", "huge", "types", "huger"}
+var c13Patterns = []string{"boundary-mix", "large-then-small", "growing", "all-empty", "many-small", "huge", "types", "huger", "exact-encoded"}
 
 func c13Messages(seed uint64, pattern string) []proto.Message {
 	r := lib.NewRng(lib.Mix(seed, 1313))
@@ -40,8 +40,36 @@ func c13Messages(seed uint64, pattern string) []proto.Message {
 		return lib.MakeContent(lib.CPeriod, int64(n), r.Uint64()%4, r) // compressible
 	}
 	dataOp := func(n int) proto.Message { return &pwr.SyncOp{Type: pwr.SyncOp_DATA, Data: payload(n)} }
+	// exactEnc returns a data op whose ENCODED (framed) length is exactly n bytes
+	exactEnc := func(n int) proto.Message {
+		for pl := n - 12; pl <= n; pl++ {
+			if pl < 0 {
+				continue
+			}
+			m := &pwr.SyncOp{Type: pwr.SyncOp_DATA, Data: lib.RandomBytes(int64(pl), r.Uint64())}
+			if proto.Size(m) == n {
+				return m
+			}
+		}
+		return dataOp(n)
+	}
 	var out []proto.Message
 	switch pattern {
+	case "exact-encoded":
+		// encoded lengths exactly on, one below and one above the reader's growth steps, in growing order (each one
+		// is larger than any buffer allocated so far) and then shrinking again; and around the writer-side small sizes
+		maxK := 20
+		if seed%3 == 0 {
+			maxK = 22 // 4 MiB: the largest message the differ writes
+		}
+		for k := 7; k <= maxK; k++ {
+			for _, d := range []int{-1, 0, 1} {
+				out = append(out, exactEnc(1<<uint(k)+d))
+			}
+		}
+		for _, n := range []int{4094, 4095, 4096, 4097, 127, 128, 129, 16383, 16384, 16385, 16511, 16512} {
+			out = append(out, exactEnc(n))
+		}
 	case "boundary-mix":
 		n := r.Range(8, 40)
 		for i := 0; i < n; i++ {
@@ -117,6 +145,9 @@ func c13Cases(tier string, seed uint64, flavor string) []lib.Case {
 			pat := c13Patterns[q%len(c13Patterns)]
 			if (pat == "huge" || pat == "huger") && comp.Algo == "brotli" && comp.Quality >= 10 && (q >= len(c13Patterns) || pat == "huger") {
 				pat = "boundary-mix" // brotli q10/11 on many MiB is too slow to repeat
+			}
+			if pat == "exact-encoded" && tier != "thorough" && comp.Quality >= 6 {
+				pat = "boundary-mix" // several MiB per sequence: fast settings only in the quick tier
 			}
 			s := c13Spec{Seed: lib.Mix(seed, 13, uint64(q)), Pattern: pat, Comp: comp, Save: saves[i%len(saves)], PopEvery: []int{1, 1, 2, 3, 5}[i%5]}
 			i++
@@ -504,7 +535,7 @@ func init() {
 	lib.Register(&lib.Property{
 		ID:          "C13",
 		Level:       "exploration",
-		Rule:        "message sequences (SyncOp/SyncHeader/Control/BlockHash; payload sizes from {0,1,127,128,16383,16384,32764..32771,65535..65537,1M-1,1M,1M+1,4M,4M+1}; patterns boundary-mix, large-then-small, growing across every power of two, all-empty, many-small, huge, types) written through wire.WriteContext + pwr.CompressWire under every registered setting (NONE; GZIP -2..9; BROTLI 0..11) and read back through DecompressWire + ReadContext; save schedules every / every 2nd / every 7th message and, for sequences <= 64 messages, one pass per message boundary with a single save request there; every popped checkpoint is gob round-tripped and resumed in a brand-new reader over the same bytes and must deliver exactly the remaining messages then EOF (in odd cases the popped checkpoint objects are held and only serialized after the whole pass); the source that was read to its end is then resumed again through a new reader - from nil and from the first/middle/last checkpoint - and must deliver the same; a pop after end-of-stream was reported, and the pops of a reader that was itself rewound (saves requested but not popped, then Resume from an earlier checkpoint on the same reader) are verified the same way; one >= 44 MiB sequence per slow-checkpointing class. ASan pass over the brotli settings (C encoder). distinct = distinct (pattern, setting, save schedule)",
+		Rule:        "message sequences (SyncOp/SyncHeader/Control/BlockHash; payload sizes from {0,1,127,128,16383,16384,32764..32771,65535..65537,1M-1,1M,1M+1,4M,4M+1}; patterns exact-encoded (framed lengths exactly 2^k-1, 2^k, 2^k+1 for k = 7..20 (..22 for a third of the seeds), 4094..4097, 16383..16512), boundary-mix, large-then-small, growing across every power of two, all-empty, many-small, huge, types) written through wire.WriteContext + pwr.CompressWire under every registered setting (NONE; GZIP -2..9; BROTLI 0..11) and read back through DecompressWire + ReadContext; save schedules every / every 2nd / every 7th message and, for sequences <= 64 messages, one pass per message boundary with a single save request there; every popped checkpoint is gob round-tripped and resumed in a brand-new reader over the same bytes and must deliver exactly the remaining messages then EOF (in odd cases the popped checkpoint objects are held and only serialized after the whole pass); the source that was read to its end is then resumed again through a new reader - from nil and from the first/middle/last checkpoint - and must deliver the same; a pop after end-of-stream was reported, and the pops of a reader that was itself rewound (saves requested but not popped, then Resume from an earlier checkpoint on the same reader) are verified the same way; one >= 44 MiB sequence per slow-checkpointing class. ASan pass over the brotli settings (C encoder). distinct = distinct (pattern, setting, save schedule)",
 		Assumptions: []string{"WantSave/PopCheckpoint are driven in the patcher's pattern (request, pop, read)", "compressed sources only checkpoint at block boundaries: a sequence that pops no checkpoint is counted, not failed, except on the purpose-sized sequences"},
 		Flavors:     func(tier string) []string { return []string{"plain", "asan"} },
 		Cases:       c13Cases,
